@@ -53,6 +53,12 @@ CHECKS = {
         text="Narrow claim: the quoting rules and the unknown-key filter only. K20a decides, for strings of every length, that every valid simple-quoted literal is detected, every valid triple-quoted literal is detected except two recorded classes (subtracted as languages after their witnesses replay), and nothing that is not lexically a simple-quoted literal is taken for quoted. K20b/c exhaust quoting round trips for texts of <=3 (4) characters over a 10-character alphabet in four styles, raw texts, TOML section names and all 256 known/unknown key subsets through ValidatorParser. Equivalence of every option across pyproject.toml / setup.cfg / pydoctor.ini / command line is NOT claimed (configargparse, toml, configparser and the file system are outside the engine's reach).",
         note="Trusted: z3 sequence theory, CPython re._parser, lib/rx2z3.py (validated against re on 26 vectors each run), my z3 rendering of the literal grammar, CrossHair exhaustion verdict.",
     ),
+    "C12": dict(
+        level="model_checking", design="DESIGN.md §3 C12",
+        technique="CrossHair (z3) exhaustion of privacy tables (environment stub of System.privacyClass) over the real visibility/listing code, and of the same tables through the real TemplateWriter with the written output examined for traces of hidden objects and private markers",
+        text="Bounded model checking over the environment: for every HIDDEN/PRIVATE/PUBLIC assignment to 6 (8) objects of a fixed 11-object project, (a) isVisible equals 'no hidden ancestor-or-self', the listing helpers (submodules, class_members, inherited_members, overriding_subclasses, findRootClasses), css_class and taglink respect it; (b) the project is rendered by the real writer (classic theme; thorough: 3 themes) and the output has no page, anchor, inventory line, search document or hyperlink for any hidden object, every listing entry (sidebar, member table, member details, module index, search documents) of a PRIVATE object carries the private marker, and every visible object has its page/anchor.",
+        note="Trusted: CrossHair exhaustion verdict; html.parser; the fixed project (lib/minimodel.py). CrossHair runs with file-system side effects unblocked for the rendering harness (writes only under its own mkdtemp). Privacy produced by real rules is C13's subject.",
+    ),
 }
 
 NOT_APPLICABLE = {
